@@ -68,12 +68,34 @@ def gen_case(rng, i, tier, exhaustive_pool):
              + [oldest + math.exp(rng.uniform(-3, 3))] for _ in range(rows)]
     else:
         x = [[math.exp(rng.uniform(-4, 2)) for _ in range(n - 1)] for _ in range(rows)]
+    # the edge of the (open) parameter domain: a parent a hair above the bound of its child, a child a hair below its
+    # parent, a whole tree on a tiny time scale — all legal, all far from the values drawn above
+    edge = None
+    if rng.random() < 0.2:
+        edge = rng.choice(["ratio-near-one", "ratio-tiny", "root-just-above", "micro-scale"])
+        tiny = rng.choice([2.0 ** -24, 2.0 ** -26, 2.0 ** -21])
+        for r in x:
+            if kind == "ratio":
+                if edge == "ratio-near-one" and n > 2:
+                    r[rng.randrange(n - 2)] = 1.0 - tiny
+                elif edge == "ratio-tiny" and n > 2:
+                    r[rng.randrange(n - 2)] = tiny
+                elif edge == "root-just-above":
+                    r[-1] = oldest + tiny * max(1.0, oldest)
+                elif edge == "micro-scale" and oldest == 0.0:
+                    r[-1] = 2.0 ** -22
+            else:
+                if edge == "micro-scale":
+                    r[:] = [v * 2.0 ** -22 for v in r]
+                else:
+                    r[rng.randrange(n - 1)] = tiny
     ops = [rng.choice(["cpu", "to"]) for _ in range(rng.choice([0, 0, 1, 2, 3]))]
     # the increments may be written as several parameters joined by a CatParameter (inner nodes + root)
     cat = kind == "shift" and n >= 3 and rng.random() < 0.4
     # whole-number dates written as INTEGERS in the specification ("date": 2012, "date": 0)
     int_dates = all(float(d).is_integer() for d in dates) and rng.random() < 0.6
-    return dict(tree=t, n=n, dates=dates, date_mode=mode, kind=kind, B=B, x=x, ops=ops, cat=cat, int_dates=int_dates)
+    return dict(tree=t, n=n, dates=dates, date_mode=mode, kind=kind, B=B, x=x, ops=ops, cat=cat, int_dates=int_dates,
+                edge=edge)
 
 
 def build(case):
@@ -164,8 +186,26 @@ def property_on_impl(case, out):
                 return "order", f"row {r}: parent {p} ({nh[p]!r}) younger than child {c} ({nh[c]!r})"
             if not near(bl[c], nh[p] - nh[c], 1e-9, 1e-10):
                 return "branch", f"row {r}: branch {c} = {bl[c]!r} but parent-child = {nh[p] - nh[c]!r}"
+        # recovering a ratio divides by (parent height - bound of the child): the round trip is as accurate as that
+        # difference is large against the rounding of the heights themselves (a conditioning fact, not a tolerance)
+        rt = 1e-7
+        if case["kind"] == "ratio":
+            bound = {}
+
+            def bnd(u):
+                if isinstance(u, int):
+                    bound[u] = lh[u]
+                    return lh[u]
+                b = max(bnd(u[1]), bnd(u[2]))
+                bound[u[0]] = b
+                return b
+            bnd(it)
+            gaps = [nh[p] - bound[c] for p, c in trees.edges(it) if c >= n]
+            gaps = [g for g in gaps if g > 0]
+            if gaps:
+                rt = max(rt, 64 * 2.3e-16 * max(abs(v) for v in nh) / min(gaps))
         for k, (a, b) in enumerate(zip(out["xinv"][r], case["x"][r])):
-            if not near(a, b, 1e-7, 1e-9):
+            if not near(a, b, rt, 1e-9):
                 return "roundtrip", f"row {r}: inv(fwd(x))[{k}] = {a!r} but x = {b!r}"
     return None
 
